@@ -101,6 +101,7 @@ class FunctionVerifier:
         eng = Engine(self.repo, c.mode, usable, timeout_ms=min(self.timeout_ms, 5000))
         eng.no_contract_for = set(c.inline) | {c.qual}
         eng.findings = self.all_findings
+        eng.opaque_always = set(c.opaque)
         for (q, line), spec in c.loops.items() if c.loops else []:
             eng.loop_specs[(q, line)] = spec
         from .models import install_default_models
@@ -430,6 +431,8 @@ def load_spec_env(eng, repo, modules):
         eng.spec_module_names.add(m)
         if "OPAQUE_IN_CODEC" in mi.constants:
             eng.opaque_spec |= set(ast.literal_eval(mi.constants["OPAQUE_IN_CODEC"]))
+        if "REAL_VALUED" in mi.constants:
+            eng.real_spec |= set(ast.literal_eval(mi.constants["REAL_VALUED"]))
         for name, fn in mi.functions.items():
             eng.spec_env[name] = FuncV(m, fn, None, None, None)
         for name in mi.constants:
